@@ -56,6 +56,10 @@ Vtx(sp, i) == sp.outline[((i - 1) % Len(sp.outline)) + 1]
 EdgeWallCorners(b, sp, n) ==
   { ToGlobal(b, sp, Pt(Vtx(sp, n)[1], Vtx(sp, n)[2], 0)), ToGlobal(b, sp, Pt(Vtx(sp, n + 1)[1], Vtx(sp, n + 1)[2], 0)),
     ToGlobal(b, sp, Pt(Vtx(sp, n + 1)[1], Vtx(sp, n + 1)[2], sp.h)), ToGlobal(b, sp, Pt(Vtx(sp, n)[1], Vtx(sp, n)[2], sp.h)) }
+\* the same with an offset dz in height written on the wall (its origin is raised; it still spans the storey height)
+EdgeWallCornersZ(b, sp, n, dz) ==
+  { ToGlobal(b, sp, Pt(Vtx(sp, n)[1], Vtx(sp, n)[2], dz)), ToGlobal(b, sp, Pt(Vtx(sp, n + 1)[1], Vtx(sp, n + 1)[2], dz)),
+    ToGlobal(b, sp, Pt(Vtx(sp, n + 1)[1], Vtx(sp, n + 1)[2], sp.h + dz)), ToGlobal(b, sp, Pt(Vtx(sp, n)[1], Vtx(sp, n)[2], sp.h + dz)) }
 \* its outward normal: the right-hand normal (dy, -dx) of the edge, turned with the space and the building
 EdgeWallNormal(b, sp, n) ==
   LET dx == Vtx(sp, n + 1)[1] - Vtx(sp, n)[1]  dy == Vtx(sp, n + 1)[2] - Vtx(sp, n)[2] IN
